@@ -73,7 +73,8 @@ Proof. exact int64_edge_refuted. Qed.
 Print Assumptions C18_int64_edge_refuted.
 
 (* ---- (2) paths -----------------------------------------------------------------------------------
-   get = Expr.First; for concrete paths (keys and indices) it is the partial function cget. *)
+   get = Expr.First (the head of Expr.Get, except after a trailing descent); for concrete paths (keys and indices)
+   it is the partial function cget. *)
 Theorem C18_get_concrete : forall p v, concrete p = true -> get p v = cget p v.
 Proof. exact get_cget. Qed.
 Print Assumptions C18_get_concrete.
@@ -100,6 +101,13 @@ Print Assumptions C18_has_agrees_with_get.
 Theorem C18_has_descent_refuted : mhas [FDesc] (JObj []) = false /\ get_all_top [FDesc] (JObj []) = [JObj []].
 Proof. exact has_descent_refuted. Qed.
 Print Assumptions C18_has_descent_refuted.
+(* bag-get (Expr.First) does the same: nothing for ".." on an empty container or a scalar, although get-all and
+   walk (Expr.Get) return the node. *)
+Theorem C18_first_descent_refuted :
+  get [FDesc] (JObj []) = None /\ get_all_top [FDesc] (JObj []) = [JObj []] /\
+  get [FDesc] (JInt 7) = None /\ get_all_top [FDesc] (JInt 7) = [JInt 7].
+Proof. exact first_descent_refuted. Qed.
+Print Assumptions C18_first_descent_refuted.
 
 (* remove: after removing the member k of the object at sx, has of that path is false; *)
 Theorem C18_remove_then_has : forall sx k v v', concrete sx = true ->
